@@ -7,6 +7,10 @@ CONSTANTS
   MaxDstFrag = 1
   MaxQ = 0
   Ops = {"read", "argv", "arrmsg", "memtok"}
+  EmptyBases = {"slice"}
+  ForeignBytes = {10, 35}
+  ArrKinds = {"exact", "shared", "roomy"}
+  MaxFail = 4
 VIEW View
 INVARIANTS TypeOK Refines
 PROPERTIES DesignAgrees Normalised OnceAgrees
